@@ -115,6 +115,26 @@ def subterm_ids(ts):
     return seen
 
 
+ABSTRACTED_FUNCTIONS = {"expf", "logf", "atanf", "tanf", "sinf", "cosf", "erff", "acosf", "cbrtf"}
+
+
+def has_abstracted_function(ts):
+    """does a term mention an uninterpreted symbol that stands for a SPECIFIC real function (exp, log, ...)?  A `sat` answer over such symbols
+    need not be realisable over the reals (only instances of their laws are given to the solver).  Uninterpreted functions that stand for
+    ARBITRARY user functions (conditioner / embedding / stage stubs) are different: a model for them is a genuine counterexample."""
+    seen = set()
+    stack = list(ts)
+    while stack:
+        u = stack.pop()
+        uid = u.get_id()
+        if uid in seen: continue
+        seen.add(uid)
+        if z3.is_app(u) and u.num_args() > 0 and u.decl().kind() == z3.Z3_OP_UNINTERPRETED and u.decl().name() in ABSTRACTED_FUNCTIONS:
+            return True
+        stack.extend(u.children())
+    return False
+
+
 def has_uf(ts):
     seen = set()
     stack = list(ts)
